@@ -20,5 +20,5 @@ MANIFEST = {
   'level_text': 'Bounded model checking of the real STEPattribute::STEPread on missing values: for every combination of OPTIONAL, strict/lenient and the four text forms of an unset value, and for INTEGER/REAL/NUMBER/STRING/other kinds, the severity follows the documented table (optional accepted; strict INCOMPLETE; lenient numeric/string accepted with a user message and 0 / 0.0 / empty string substituted and written back; other kinds INCOMPLETE) and the stream stops at the delimiter.',
   'level_note': 'Trusted: CBMC, ir2c, vstd. Real TypeDescriptor/AttrDescriptor/STEPattribute objects, owner descriptor is raw storage. Outside: the mapping of attribute severities to the file verdict / exit status, attribute positions, inheritance, complex parts.',
   'technique': 'CBMC bounded model checking of IR-translated STEPattribute::STEPread with symbolic optional/strict flags against the property decision table',
-  'design_ref': 'DESIGN.md section 3, C15',
+  'design_ref': 'DESIGN.md section 2, C15',
 }
